@@ -39,7 +39,7 @@ def seeded_catalogue():
         if os.path.exists(meta):
             m = json.load(open(meta))
             out.append({"id": "seeded/" + d, "props": m["checks"] if "checks" in m else [m["property"]],
-                        "patch": os.path.join(root, d, "patch.diff"), "expect": "break"})
+                        "patch": os.path.join(root, d, "patch.diff"), "expect": "benign" if m.get("benign") else "break"})
     return out
 
 
